@@ -69,7 +69,9 @@ def is_scalar_type(t):
 
 
 class SymEval:
-    def __init__(self, prog, fn, nonneg=(), this_path="this"):
+    def __init__(self, prog, fn, nonneg=(), this_path="this", lazy_scalars=False):
+        self.lazy_scalars = lazy_scalars
+        self.local_syms = {}      # sympy symbol -> did of the scalar local it stands for
         self.p = prog
         self.fn = fn
         self.fi = prog.index(fn)
@@ -191,7 +193,10 @@ class SymEval:
             self.memo[did] = v
             return v
         single = ("const" in (d.get("t") or "").split("<")[0]) or d.get("t", "").endswith("&") or did not in self._writes
-        if single and isinstance(d.get("init"), dict):
+        if single and isinstance(d.get("init"), dict) and self.lazy_scalars and is_scalar_type(d.get("t", "")):
+            v = self.sym(name)
+            self.local_syms[v] = did
+        elif single and isinstance(d.get("init"), dict):
             v = self.local_decl_value(d)
         else:
             v = self.obj(name, d.get("t", t))
@@ -206,6 +211,83 @@ class SymEval:
         v = self.coerce(self.ev(d["init"]), d.get("t", ""))
         self.memo[key] = v
         return v
+
+    def definition(self, did):
+        """One-level definition of a lazily kept scalar local."""
+        d = self._var_decl(did)
+        return self.local_decl_value(d)
+
+    def expand_once(self, expr):
+        subs = {}
+        for a in expr.free_symbols:
+            if a in self.local_syms:
+                subs[a] = self.definition(self.local_syms[a])
+        if not subs:
+            return expr, False
+        return expr.subs(subs, simultaneous=True), True
+
+    def point_value(self, expr, seed):
+        """Exact value of expr at a pseudo-random rational point (atoms -> rationals; lazily kept scalar
+        locals -> value of their definition at the same point)."""
+        import random
+        rng = random.Random(seed)
+        assign = {}
+        # deterministic assignment by atom name so that every call with the same seed agrees
+        def val_of(sym_):
+            if sym_ in assign:
+                return assign[sym_]
+            if sym_ in self.local_syms:
+                assign[sym_] = None
+                d = self.definition(self.local_syms[sym_])
+                v = ev(d)
+                assign[sym_] = v
+                return v
+            r = random.Random(hash((seed, sym_.name)) & 0xFFFFFFFF)
+            v = sp.Rational(r.randint(1, 97), r.randint(1, 13)) * (1 if r.random() < 0.7 else -1)
+            if any(sym_.name.endswith(x) or x in sym_.name for x in self.nonneg_names):
+                v = abs(v)
+            assign[sym_] = v
+            return v
+        def ev(e):
+            subs = {a: val_of(a) for a in e.free_symbols}
+            return e.subs(subs, simultaneous=True)
+        return ev(expr)
+
+    def prove_zero(self, expr, rounds=8):
+        """Decides whether the scalar expression is identically zero.
+        Refutation: a non-zero exact value at a rational point (sound: a polynomial / rational identity
+        holds at every point of its domain).  Proof: polynomial / rational normal form, with on-demand
+        def-use expansion of scalar locals.  Neither => Decline (analysis-broken, never a guess)."""
+        if expr == 0:
+            return True
+        for seed in (11, 29):
+            try:
+                v = self.point_value(expr, seed)
+                v = sp.nsimplify(v) if v.is_number and not v.is_Rational and False else v
+                if v.is_number:
+                    if v.is_Rational:
+                        if v != 0:
+                            self.last_witness = "value %s at a rational sample point" % v
+                            return False
+                    else:
+                        fv = sp.N(v, 40)
+                        if abs(fv) > sp.Float("1e-25"):
+                            self.last_witness = "value %s at a sample point" % sp.N(v, 8)
+                            return False
+            except (ZeroDivisionError, Decline):
+                raise
+            except Exception:
+                pass
+        cur = expr
+        for _ in range(rounds):
+            if sp.count_ops(cur) > 6000:
+                break
+            if zero(cur):
+                return True
+            cur, changed = self.expand_once(cur)
+            if not changed:
+                break
+        raise Decline("identity holds at the sample points but could not be brought to normal form (size %d)" % sp.count_ops(cur))
 
     def coerce(self, v, t):
         """Implicit conversions that matter: double -> float/int truncation is NOT modelled (declined
@@ -728,3 +810,82 @@ def translation_weight(ev, v, position_atoms, shift=None):
         y = x.subs(sub, simultaneous=True)
         return [sp.simplify(sp.diff(y, t)) for t in (tx, ty, tz)], sp.simplify(y - x - sum(sp.diff(y, t) * t for t in (tx, ty, tz)))
     return w, sub
+
+
+class Invariance:
+    """Compositional translation typing.  A scalar is weight 0 iff substituting every position atom
+    x -> x + t leaves it unchanged, with lazily kept scalar locals treated as constants *provided* each of
+    them is itself weight 0 by its own definition (memoised).  A vector is weight w in {0, 1} iff the
+    substitution changes it by w*t."""
+
+    def __init__(self, ev, is_position_atom):
+        self.ev = ev
+        self.is_pos = is_position_atom
+        self.t = sp.symbols("_tx _ty _tz", real=True)
+        self.memo = {}
+
+    def shift_map(self, expr):
+        sub = {}
+        for a in expr.free_symbols:
+            n = a.name
+            if a in self.ev.local_syms:
+                continue
+            if self.is_pos(n):
+                if n.endswith(".dx_"):
+                    sub[a] = a + self.t[0]
+                elif n.endswith(".dy_"):
+                    sub[a] = a + self.t[1]
+                elif n.endswith(".dz_"):
+                    sub[a] = a + self.t[2]
+        return sub
+
+    def scalar_weight0(self, expr, why=None):
+        """True / False (with self.reason) ; raises Decline if undecidable."""
+        expr = sp.sympify(expr)
+        for a in expr.free_symbols:
+            if a in self.ev.local_syms:
+                did = self.ev.local_syms[a]
+                if did not in self.memo:
+                    self.memo[did] = None
+                    ok = self.scalar_weight0(self.ev.definition(did))
+                    self.memo[did] = ok
+                    if not ok:
+                        self.reason = "local '%s' is not translation invariant: %s" % (a.name.split("#")[0], getattr(self, "reason", ""))
+                if self.memo[did] is False:
+                    if not getattr(self, "reason", None):
+                        self.reason = "depends on local '%s' which is not translation invariant" % a.name.split("#")[0]
+                    return False
+        sub = self.shift_map(expr)
+        if not sub:
+            return True
+        d = expr.subs(sub, simultaneous=True) - expr
+        ok = self.ev.prove_zero(d)
+        if not ok:
+            self.reason = "%s changes under a common translation (%s)" % (str(expr)[:80], getattr(self.ev, "last_witness", ""))
+        return ok
+
+    def vector_weight(self, rec):
+        """0, 1 or None (neither) for a vec3-like Rec."""
+        comps = list(rec.f.values())
+        if len(comps) != 3:
+            raise Decline("not a 3-vector")
+        w0 = True
+        w1 = True
+        for i, c in enumerate(comps):
+            c = sp.sympify(c)
+            for a in c.free_symbols:
+                if a in self.ev.local_syms:
+                    if not self.scalar_weight0(a):
+                        return None
+            sub = self.shift_map(c)
+            d = c.subs(sub, simultaneous=True) - c
+            if w0 and not self.ev.prove_zero(d):
+                w0 = False
+            if w1 and not self.ev.prove_zero(d - self.t[i]):
+                w1 = False
+        if w0:
+            return 0
+        if w1:
+            return 1
+        self.reason = "vector %s is neither invariant nor a point under translation" % self.ev.pretty(rec)[:100]
+        return None
